@@ -315,6 +315,7 @@ def P6(ctx):
 def run(ctx):
     from . import guardvocab
     guardvocab.G0(ctx, effects={'thread-done', 'switch'})
+    guardvocab.G1(ctx, effects={'thread-done', 'switch'})
     P6(ctx)
     P1(ctx)
     P2_wrapper(ctx)
